@@ -17,7 +17,10 @@ def _c17_ints(s):
 
 def _c17_case(c):
     p = c.split(" ")
-    if p[0] in ("T", "A", "W", "V", "U", "u", "X"):
+    if p[0] in ("T", "A", "W", "V", "U", "u", "X", "Q"):
+        tok = None
+        if p[0] == "Q":
+            tok, p = p[-2:], p[:-2]
         _, pred, mr, mn, mx, tbl, dflt, cn, kind, data, script, opts = p
         man = ""
         if kind[0] in "MmIi":
@@ -37,7 +40,18 @@ def _c17_case(c):
         if cn != "-":
             t, k = cn.split(":")
             cancel, deadline = int(t), k == "d"
-        return {"op": p[0], "pred": "" if pred == "-" else pred, "max_retry": int(mr), "min": int(mn), "max": int(mx), "tbl": _c17_ints(tbl), "dflt": int(dflt),
+        extra = {}
+        if tok:
+            tbehs = []
+            if tok[1] != "-":
+                for b in tok[1].split(";"):
+                    o, r, l = b.split("/")
+                    d = _c17_out(o)
+                    d["read"] = -1 if r == "*" else int(r)
+                    d["lat"] = int(l)
+                    tbehs.append(d)
+            extra = {"token_post": tok[0][0] == "P", "token_script": tbehs}
+        return {**extra, "op": p[0], "pred": "" if pred == "-" else pred, "max_retry": int(mr), "min": int(mn), "max": int(mx), "tbl": _c17_ints(tbl), "dflt": int(dflt),
                 "cancel": cancel, "deadline": deadline, "body": kind, "manifest": man, "unknown_len": unknown, "method": method, "pre_auth": preauth,
                 "data": "" if data == "-" else data, "big_len": 0, "script": behs}
     if p[0] == "D":
@@ -57,10 +71,10 @@ def _c17_case(c):
 _VM_PRELUDE = """From Coq Require Import QArith.
 From Oras Require Import Base.Prelude Generated.GC17 Model.Retry Proofs.Retry.
 Open Scope Z_scope.
-Inductive rshow := SResp (c : Z) | SErr (a b c : bool) | SPred | SCtx | SPanic | SNotRew | SGetBody | SFuel.
+Inductive rshow := SResp (c : Z) | STok (c : Z) | SErr (a b c : bool) | SPred | SCtx | SPanic | SNotRew | SGetBody | SFuel.
 Definition show_res (r : result) : rshow :=
   match r with
-  | RResp c _ => SResp c | RErr a b c => SErr a b c | RPredErr => SPred | RCtx => SCtx | RPanic => SPanic
+  | RResp c _ => SResp c | RTokenResp c => STok c | RErr a b c => SErr a b c | RPredErr => SPred | RCtx => SCtx | RPanic => SPanic
   | RNotRewindable => SNotRew | RGetBodyFailed => SGetBody | RFuel => SFuel
   end.
 Definition show_atts (orig : str) (tr : list event) : list (Z * option nat) :=
